@@ -58,6 +58,7 @@ type AbsExec struct {
 	Inlined map[ssa.Instruction]bool
 	Panic   bool
 	Edges   map[Edge]bool // branch edges taken
+	Tested  map[ssa.Value]bool
 	Ret     *ssa.Return   // return of the top function (nil: panic / cut)
 	// RetVals: the returned values, phis replaced by the value they carried; RetKnown/RetBool: a boolean result
 	// determined by the execution
@@ -79,6 +80,7 @@ type absState struct {
 	tupSrc  map[ssa.Value]map[int]ssa.Value
 	inlined map[ssa.Instruction]bool
 	edges   map[Edge]bool
+	tested  map[ssa.Value]bool // values a branch of the analysed function decided on (directly or through ! / == nil / a carried value)
 	cell    map[*ssa.Alloc]absField // scalar local variables that live in memory (captured by a closure that only reads them)
 	clock   int
 	visit   map[*ssa.BasicBlock]int
@@ -86,7 +88,7 @@ type absState struct {
 }
 
 func newAbsState() *absState {
-	return &absState{env: map[ssa.Value]absVal{}, vals: map[ssa.Value]bool{}, seq: map[ssa.Value]int{}, calls: map[ssa.Instruction]int{}, tup: map[ssa.Value][]absVal{}, alias: map[ssa.Value]ssa.Value{}, mem: map[*ssa.Alloc]map[int]absField{}, tupSrc: map[ssa.Value]map[int]ssa.Value{}, inlined: map[ssa.Instruction]bool{}, edges: map[Edge]bool{}, cell: map[*ssa.Alloc]absField{}, visit: map[*ssa.BasicBlock]int{}, snaps: map[*ssa.BasicBlock][]string{}}
+	return &absState{env: map[ssa.Value]absVal{}, vals: map[ssa.Value]bool{}, seq: map[ssa.Value]int{}, calls: map[ssa.Instruction]int{}, tup: map[ssa.Value][]absVal{}, alias: map[ssa.Value]ssa.Value{}, mem: map[*ssa.Alloc]map[int]absField{}, tupSrc: map[ssa.Value]map[int]ssa.Value{}, inlined: map[ssa.Instruction]bool{}, edges: map[Edge]bool{}, tested: map[ssa.Value]bool{}, cell: map[*ssa.Alloc]absField{}, visit: map[*ssa.BasicBlock]int{}, snaps: map[*ssa.BasicBlock][]string{}}
 }
 
 func (s *absState) clone() *absState {
@@ -106,6 +108,9 @@ func (s *absState) clone() *absState {
 	}
 	for k := range s.edges {
 		c.edges[k] = true
+	}
+	for k := range s.tested {
+		c.tested[k] = true
 	}
 	for k, v := range s.cell {
 		c.cell[k] = v
@@ -172,7 +177,7 @@ func (p *Program) AbstractExecutions(fn *ssa.Function) ([]AbsExec, bool) {
 	if r, ok := p.absCache[fn]; ok {
 		return r.execs, r.complete
 	}
-	run := &absRun{p: p, limit: 3000, complete: true}
+	run := &absRun{p: p, limit: 20000, complete: true}
 	st := newAbsState()
 	results := run.exec(fn, st, 0)
 	out := run.finish(fn, results)
@@ -242,7 +247,7 @@ func (r *absRun) block(fn *ssa.Function, b *ssa.BasicBlock, prev *ssa.BasicBlock
 	states := []*absState{st}
 	for _, in := range b.Instrs {
 		switch in.(type) {
-		case *ssa.Phi, *ssa.If, *ssa.Jump, *ssa.Return, *ssa.Panic, ssa.CallInstruction:
+		case *ssa.Phi, ssa.CallInstruction:
 		default:
 			for _, s := range states {
 				s.calls[in] = s.clock
@@ -439,7 +444,35 @@ func (r *absRun) inlinable(caller, cal *ssa.Function) bool {
 	return true
 }
 
+// markTested: the branch condition and the values it is computed from / carried by.
+func (r *absRun) markTested(s *absState, v ssa.Value, depth int) {
+	if v == nil || depth > 6 || s.tested[v] {
+		return
+	}
+	s.tested[v] = true
+	switch x := v.(type) {
+	case *ssa.UnOp:
+		if x.Op == token.NOT {
+			r.markTested(s, x.X, depth+1)
+		}
+	case *ssa.BinOp:
+		if x.Op == token.EQL || x.Op == token.NEQ {
+			if isNilConst(x.Y) {
+				r.markTested(s, x.X, depth+1)
+			} else if isNilConst(x.X) {
+				r.markTested(s, x.Y, depth+1)
+			}
+		}
+	}
+	if a, ok := s.alias[v]; ok && a != v {
+		r.markTested(s, a, depth+1)
+	}
+}
+
 func (r *absRun) branch(fn *ssa.Function, b *ssa.BasicBlock, ifi *ssa.If, st *absState, depth int) []absResult {
+	if depth == 0 {
+		r.markTested(st, ifi.Cond, 0)
+	}
 	v := r.eval(st, ifi.Cond)
 	if v.K == akBool {
 		st.note(ifi.Cond, v.B)
@@ -628,6 +661,9 @@ const (
 // evaluated with the matching truth value. ok=false: the enumeration was cut and nothing can be concluded.
 func (p *Program) AbsGuarded(fn *ssa.Function, at ssa.Instruction, g GuardMatch, mode AbsMode) (guarded bool, ok bool) {
 	execs, complete := p.AbstractExecutions(fn)
+	if os.Getenv("JKL_DEBUG_ABS") != "" {
+		fmt.Fprintf(os.Stderr, "absguarded: %s at %s mode=%d execs=%d complete=%v\n", FnName(fn), p.InstrPos(at), mode, len(execs), complete)
+	}
 	if !complete {
 		return false, false
 	}
@@ -637,6 +673,16 @@ func (p *Program) AbsGuarded(fn *ssa.Function, at ssa.Instruction, g GuardMatch,
 		for _, ri := range p.Returns(fn) {
 			retClass[ri.Ret] = ri.Class
 		}
+	}
+	anyPerformed := false
+	for i := range execs {
+		if _, performed := execs[i].Calls[at]; performed {
+			anyPerformed = true
+			break
+		}
+	}
+	if !anyPerformed {
+		return false, false // no enumerated execution reaches the instruction: nothing can be concluded
 	}
 	for i := range execs {
 		e := &execs[i]
@@ -655,6 +701,9 @@ func (p *Program) AbsGuarded(fn *ssa.Function, at ssa.Instruction, g GuardMatch,
 			}
 		}
 		if !p.execSatisfies(e, g, when, mode == AbsBefore, fn) {
+			if os.Getenv("JKL_DEBUG_ABS") != "" {
+				fmt.Fprintf(os.Stderr, "absfail: %s at %s mode=%d\n", FnName(fn), p.InstrPos(at), mode)
+			}
 			return false, true
 		}
 	}
@@ -675,6 +724,9 @@ func (p *Program) execSatisfies(e *AbsExec, g GuardMatch, when int, before bool,
 		if g(ca, truth) {
 			if os.Getenv("JKL_DEBUG_ABS") != "" {
 				fmt.Fprintf(os.Stderr, "absmatch: %s=%v @%s\n", p.Describe(ca, true), truth, p.InstrPos(in))
+				if os.Getenv("JKL_DEBUG_ABS") == "2" {
+					fmt.Fprintf(os.Stderr, "absmatch-exec: %s %s=%s seq=%d when=%d tested=%v ## %s\n", p.InstrPos(in), v.Name(), v.String(), e.Seq[v], when, e.Tested[v], p.DescribeExec(e))
+				}
 			}
 			return true
 		}
@@ -705,6 +757,9 @@ func (p *Program) execSatisfies(e *AbsExec, g GuardMatch, when int, before bool,
 			}
 			if in, ok := v.(ssa.Instruction); ok && top != nil && in.Parent() != top {
 				continue
+			}
+			if top != nil && !e.Tested[v] {
+				continue // merely known, not decided on: it cannot have turned the execution away
 			}
 		}
 		if try(v, tv) {
@@ -933,7 +988,7 @@ func (r *absRun) finish(fn *ssa.Function, results []absResult) []AbsExec {
 	ei := errResultIndex(fn)
 	var out []AbsExec
 	for _, r := range results {
-		e := AbsExec{Vals: r.st.vals, Seq: r.st.seq, Calls: r.st.calls, Alias: r.st.alias, Inlined: r.st.inlined, Edges: r.st.edges, Panic: r.panicked, Ret: r.ret}
+		e := AbsExec{Vals: r.st.vals, Seq: r.st.seq, Calls: r.st.calls, Alias: r.st.alias, Inlined: r.st.inlined, Edges: r.st.edges, Tested: r.st.tested, Panic: r.panicked, Ret: r.ret}
 		if r.ret != nil {
 			for i, rv := range r.ret.Results {
 				if a, ok := r.st.alias[rv]; ok {
@@ -959,7 +1014,7 @@ func (r *absRun) finish(fn *ssa.Function, results []absResult) []AbsExec {
 // LoopBodyExecutions enumerates the abstract executions of one iteration of the loop with the given header: from the
 // header to the next arrival at it (or to leaving the loop / the function).
 func (p *Program) LoopBodyExecutions(fn *ssa.Function, header *ssa.BasicBlock) ([]AbsExec, bool) {
-	run := &absRun{p: p, limit: 3000, complete: true, top: fn}
+	run := &absRun{p: p, limit: 20000, complete: true, top: fn}
 	run.region = func(b *ssa.BasicBlock) bool { return b != header && SameLoop(b, header) }
 	st := newAbsState()
 	results := run.block(fn, header, nil, st, 0)
@@ -1126,4 +1181,48 @@ func (p *Program) ExecCommits(fn *ssa.Function, e *AbsExec) bool {
 // ExecSatisfies: a condition matched by g was evaluated on the execution (before order `when` if when > 0).
 func (p *Program) ExecSatisfies(e *AbsExec, g GuardMatch, when int) bool {
 	return p.execSatisfies(e, g, when, when > 0, nil)
+}
+
+// ExecCond is one condition an execution evaluated, with its truth value.
+type ExecCond struct {
+	Atom  *CondAtom
+	Truth bool
+}
+
+// ExecConditions lists the conditions the execution evaluated before order `when` (all of them if when <= 0).
+func (p *Program) ExecConditions(e *AbsExec, when int) []ExecCond {
+	var out []ExecCond
+	add := func(v ssa.Value, tv bool) {
+		in, isIn := v.(ssa.Instruction)
+		if !isIn {
+			return
+		}
+		ca := p.normVal(v, false)
+		ca.If = in
+		out = append(out, ExecCond{ca, tv != ca.Neg})
+	}
+	for v, tv := range e.Vals {
+		if when > 0 && e.Seq[v] > when {
+			continue
+		}
+		add(v, tv)
+		if a, ok := e.Alias[v]; ok && a != v && isBool(a.Type()) {
+			add(a, tv)
+		}
+	}
+	return out
+}
+
+// AbsEdgeCommits: does some abstract execution of fn take the branch edge and end in a commit return?
+func (p *Program) AbsEdgeCommits(fn *ssa.Function, e Edge) (exists bool, ok bool) {
+	execs, complete := p.AbstractExecutions(fn)
+	if !complete {
+		return false, false
+	}
+	for i := range execs {
+		if execs[i].Edges[e] && p.ExecCommits(fn, &execs[i]) {
+			return true, true
+		}
+	}
+	return false, true
 }
